@@ -32,7 +32,7 @@ structure Run where
 def stepDispAuto (r : Run) : Option Run :=
   match r.st.disp with
   | .handle =>
-    if r.st.dispQ = 0 then (step false r.st (.disp false)).map (fun s => { r with st := s })
+    if r.st.dispQ = 0 then (step .current r.st (.disp false)).map (fun s => { r with st := s })
     else
       match r.st.delivered[r.popped]? with
       | some b =>
@@ -40,12 +40,12 @@ def stepDispAuto (r : Run) : Option Run :=
         -- Select.req / (any) Select.rsp select, Deselect.req / Deselect.rsp deselect (`connection_state.select()/deselect()` in the handlers)
         let t := b.header.s_type
         let sel := if t = 1 ∨ t = 2 then true else if t = 3 ∨ t = 4 then false else r.selected
-        (step false r.st (.disp reply)).map (fun s => { st := s, popped := r.popped + 1, selected := sel })
+        (step .current r.st (.disp reply)).map (fun s => { st := s, popped := r.popped + 1, selected := sel })
       | none => none
-  | _ => (step false r.st (.disp false)).map (fun s => { r with st := s })
+  | _ => (step .current r.st (.disp false)).map (fun s => { r with st := s })
 
 /-- run the endpoint's own threads until nothing moves (bounded by `mu`): connection thread first, then receiver, then dispatcher -/
-def settle (blocking : Bool) : Nat → Run → Run
+def settle (blocking : Variant) : Nat → Run → Run
   | 0, r => r
   | n+1, r =>
     match step blocking r.st .tcp with
@@ -65,12 +65,12 @@ def showPc (s : St) : String :=
 
 def showTag : Tag → String | .sep => "sep" | .reply => "reply"
 
-def showRun (blocking : Bool) (r : Run) : String :=
+def showRun (blocking : Variant) (r : Run) : String :=
   showPc r.st ++ s!" rx={showBool r.st.prx.alive} conn={showBool r.st.conn} buf={r.st.buf.length} delivered={r.st.delivered.length - r.st.mark} total={r.st.delivered.length}"
     ++ " out=[" ++ ",".intercalate (r.st.out.map showTag) ++ "]" ++ s!" selected={showBool (r.selected && r.st.conn)} wedged={showBool (wedged blocking r.st)}"
 
 /-- script: `C` connect, `X` close, `K<hex>` chunk, `Q` settle, `|` print a snapshot, `T`/`P`/`p`/`D` single thread steps -/
-def script (blocking : Bool) : List String → Run → List String → Option (List String)
+def script (blocking : Variant) : List String → Run → List String → Option (List String)
   | [], _, acc => some acc.reverse
   | w :: ws, r, acc =>
     if w == "C" then (step blocking r.st .connect).bind (fun s => script blocking ws { r with st := s, selected := false } acc)
@@ -93,7 +93,7 @@ def handle : List String → String
     | some cs => "ok " ++ showRx (cs.foldl feed Rx.init)
     | none => "bad-op"
   | "wedge" :: b :: ws =>
-    let blocking := b == "blocking"
+    let blocking : Variant := if b == "blocking" then .blockingRead else if b == "returning" then .returningSendLoop else .current
     match script blocking ws ⟨St.init, 0, false⟩ [] with
     | some outs => "ok " ++ " | ".intercalate outs
     | none => "err NotEnabled"
